@@ -173,8 +173,14 @@ func (p *Parser) ParseFile(filename string, varPool *VarPool) (*MetaData, []*Bui
 				case *ast.IndexListExpr:
 					fun = indexed.X
 				}
-				sel, ok := fun.(*ast.SelectorExpr)
-				if !ok || pkg.TypesInfo.Uses[sel.Sel] != injectObj {
+				var callee *ast.Ident
+				switch f := fun.(type) {
+				case *ast.SelectorExpr:
+					callee = f.Sel
+				case *ast.Ident: // kessoku is dot-imported
+					callee = f
+				}
+				if callee == nil || pkg.TypesInfo.Uses[callee] != injectObj {
 					return true
 				}
 				if tv, ok := pkg.TypesInfo.Types[call.Args[0]]; ok && tv.Value != nil && tv.Value.Kind() == constant.String {
@@ -424,16 +430,19 @@ func (p *Parser) findInjectDirectives(file *ast.File, pkg *packages.Package, kes
 			return true
 		}
 
-		var baseFunc *ast.SelectorExpr
+		// kessoku.Inject[T](...), or Inject[T](...) when kessoku is dot-imported
+		var baseFunc ast.Expr
 
 		switch fun := callExpr.Fun.(type) {
 		case *ast.IndexExpr:
-			if sel, ok := fun.X.(*ast.SelectorExpr); ok {
-				baseFunc = sel
+			switch fun.X.(type) {
+			case *ast.SelectorExpr, *ast.Ident:
+				baseFunc = fun.X
 			}
 		case *ast.IndexListExpr:
-			if sel, ok := fun.X.(*ast.SelectorExpr); ok {
-				baseFunc = sel
+			switch fun.X.(type) {
+			case *ast.SelectorExpr, *ast.Ident:
+				baseFunc = fun.X
 			}
 		case *ast.SelectorExpr:
 			baseFunc = fun
